@@ -262,7 +262,7 @@ def run(ctx):
     ctx.coverage['rule'] = ('documents written by an independent grammar-directed writer: every value kind x an independently chosen legal spelling per '
                             'token (blanks around commas and colons, empty cells, _ in digits, exponent forms, INF/-INF/NaN, raw / short / \\uXXXX escapes '
                             'in upper and lower case, CRLF, trailing commas and blanks in lists and dicts, T/t and Z/z, with and without zone name, blanks '
-                            'before line ends, with and without final newline), as str and as bytes in utf-8 / utf-16 / latin-1, single and multi-grid; distinct by text')
+                            'before line ends, with and without final newline), as str and as bytes in utf-8 / utf-8-sig / utf-7 / utf-16 / utf-32 (native, LE and BE) / latin-1 / cp1252 / ascii / cp037 (EBCDIC), single and multi-grid; distinct by text')
     docs = []
     for _ in range(n):
         k = rng.choice([1, 1, 1, 1, 2, 3])
@@ -298,7 +298,7 @@ def run(ctx):
         seen.add(text)
     # bytes input in several charsets, single flag
     for text, want in docs[:120 if not thorough else 1000]:
-        for cs in ('utf-8', 'utf-16', 'latin-1'):
+        for cs in ('utf-8', 'utf-16', 'latin-1', 'utf-16-le', 'utf-16-be', 'utf-32', 'utf-32-le', 'utf-32-be', 'utf-8-sig', 'utf-7', 'cp1252', 'ascii', 'cp037'):
             try:
                 data = text.encode(cs)
             except UnicodeEncodeError:
